@@ -1096,7 +1096,8 @@ VARIANTS = [
      "old": "        and (name1, name2) in self._compatible_builtins",
      "new": "        and (name2, name1) in self._compatible_builtins"},
     {"name": "bool-not-int", "rule": "R2.2", "file": stubs.BUILTINS, "expect": "fire",
-     "old": "class bool(int):", "new": "class bool(object):"},
+     "old": "class bool(int, SupportsInt, SupportsFloat):",
+     "new": "class bool(SupportsInt, SupportsFloat):"},
     {"name": "keyerror-not-lookuperror", "rule": "R2.2", "file": stubs.BUILTINS, "expect": "fire",
      "old": "class KeyError(LookupError)", "new": "class KeyError(Exception)"},
     {"name": "return-check-dropped", "rule": "R2.3", "file": "pytype/vm.py", "expect": "fire",
@@ -1234,4 +1235,37 @@ EXPLANATION += (
 )
 ASSUMPTIONS += [
     "R2.25/R2.26 follow the VM's store handlers through self.<method>() calls with constant-argument propagation; a table obtained through any other indirection is an ANALYSIS-ERROR.",
+]
+
+# rules/c02_element_loops.py (R2.27)
+EXPLANATION += (
+    "  R2.27 (rules/c02_element_loops.py) every 'all components must match' "
+    "loop of matcher.py - found by role: a `for` loop in a class of the file "
+    "whose body hands a value derived from the loop variable to a matcher "
+    "method (`self.<..match..>(..)`, or a self-helper that forwards a "
+    "parameter to one) and contains a failure exit (`return None`, `return "
+    "<name known to be None>`, `raise`); today the loops over the elements "
+    "of a concrete tuple (fixed-length, homogeneous and tuple-instance "
+    "targets), over an instance's type parameters, a callable's / "
+    "signature's arguments, a protocol's attributes, a TypeVar's constraints "
+    "and the arguments of a call - is enumerated path by path (if-nesting, "
+    "guard clauses; assignments in order, so that `x is None` facts and what "
+    "derives from the loop variable are known per path; contradictory paths "
+    "dropped): a path that goes on to the next component must have passed a "
+    "value derived from the component to a matcher method, or have fed a "
+    "value derived from it into a local the function reads after the loop "
+    "(the accumulated substitution); a `return` inside the body must return "
+    "None.  A path that only looks at the component (its class, a flag, its "
+    "index, a set of things already seen) and continues is a violation: the "
+    "component was accepted without being matched.  Blind spots: loops whose "
+    "matching sits in a nested loop / try / match block are not instances; a "
+    "path that re-uses a stored result looked up under a key derived from "
+    "the component counts as 'derived from the component' (a per-loop memo "
+    "keyed by something coarser than the component is not detected); a match "
+    "whose failure is ignored (result None not leading to the failure exit) "
+    "is not reported; `break` out of such a loop is an analysis error.")
+ASSUMPTIONS += [
+    "R2.27: a method of the matcher class whose name contains `match` puts "
+    "its arguments to the matcher; locals of the loop body are not aliased "
+    "through containers",
 ]
